@@ -556,8 +556,7 @@ Definition is_spread (m : cmode) : bool := match m with MSpread => true | _ => f
 Definition bind_side (d : dir) (cx : cctx) (ins : list ty) (va : bool) (m : cmode) (args : list val) : bool :=
   let n := nfixed ins va in
   match d with
-  | S2H => negb (cx_defer cx && cx_hold cx) && negb (cx_defer cx && is_spread m)
-           && (negb (is_ind m) || Nat.ltb n (length args))
+  | S2H => negb (cx_defer cx && is_spread m) && (negb (is_ind m) || Nat.ltb n (length args))
   | H2S => negb (is_ind m) || Nat.ltb n (length args)
   | S2S => if cx_value cx then negb (is_ind m) || Nat.ltb n (length args)
            else forallb no_negzero (firstn n args) && (negb (is_ind m) || forallb not_any_slice (skipn n args))
@@ -586,11 +585,11 @@ Lemma bind_s2h cx ins va m args :
   bind_side S2H cx ins va m args = true -> call_wf ins va m args ->
   vals_eqb (y_bind S2H cx ins va m args) (g_bind ins va m args) = true.
 Proof.
-  unfold bind_side, call_wf. rewrite !andb_true_iff, !negb_true_iff. intros [[Hdh Hds] Hn] [Hwt Hind].
+  unfold bind_side, call_wf. rewrite !andb_true_iff, !negb_true_iff. intros [Hds Hn] [Hwt Hind].
   assert (Hok : Forall2 okv (arg_types ins va m (length args)) args)
     by (eapply Forall2_impl'; [|eassumption]; intros a b [H _]; exact H).
   destruct (prepared_ok _ _ Hok) as (P1 & P2 & P3).
-  unfold y_bind. rewrite Hdh.
+  unfold y_bind.
   set (prepared := map2 (fun t v => to_host (vsize v) t v) (arg_types ins va m (length args)) args) in *.
   destruct m; unfold g_bind.
   - rewrite P1. assumption.
@@ -769,10 +768,9 @@ Proof. intros H; simpl; congruence. Qed.
 (* ------------------------------------------------------------------ *)
 (** * Witnesses: the side conditions are inhabited, and outside them the faithful model differs *)
 
-Definition cx0 : cctx := {| cx_defer := false; cx_hold := false; cx_value := false |}.
-Definition cx_deferred : cctx := {| cx_defer := true; cx_hold := false; cx_value := false |}.
-Definition cx_deferred_hold : cctx := {| cx_defer := true; cx_hold := true; cx_value := false |}.
-Definition cx_funcvalue : cctx := {| cx_defer := false; cx_hold := false; cx_value := true |}.
+Definition cx0 : cctx := {| cx_defer := false; cx_value := false |}.
+Definition cx_deferred : cctx := {| cx_defer := true; cx_value := false |}.
+Definition cx_funcvalue : cctx := {| cx_defer := false; cx_value := true |}.
 
 Definition tP : ty := TStruct (s "P") [TInt 64; TString].
 Definition vP (x : Z) (y : string) : val := VStruct [VInt x; VStr (s y)].
@@ -831,11 +829,13 @@ Lemma defer_spread_refuted :
   /\ g_bind ins_v true MSpread [VStr (s "a"); VSlice [VInt 1]] = [VStr (s "a"); VSlice [VInt 1]].
 Proof. repeat split; reflexivity. Qed.
 
-(** defer host.F(cb), cb a local func variable the host calls back *)
-Lemma defer_callback_refuted :
-  y_bind S2H cx_deferred_hold [t_cb] false MPlain [v_cb] = [VBad (s "timeout")]
-  /\ g_bind [t_cb] false MPlain [v_cb] = [v_cb].
-Proof. split; reflexivity. Qed.
+(** defer host.F(cb), cb a local func variable the host calls back: repaired by abe7a69 (the call
+    used to hang on the frame mutex); now the host gets the callback like in any other call. *)
+Lemma defer_callback_regression :
+  bind_side S2H cx_deferred [t_cb] false MPlain [v_cb] = true
+  /\ vals_eqb (y_bind S2H cx_deferred [t_cb] false MPlain [v_cb]) (g_bind [t_cb] false MPlain [v_cb]) = true
+  /\ call (hd VNil (y_bind S2H cx_deferred [t_cb] false MPlain [v_cb])) [VInt 2] = [VStr (s "two")].
+Proof. repeat split; reflexivity. Qed.
 
 (** F(-0.0) inside the script: the parameter is +0 *)
 Definition neg0 : val := VFloat 9223372036854775808.
